@@ -96,14 +96,14 @@ Theorem c20_metadata_sound : forall st path line,
   In line (tl (viss_metadata st path)) ->
   exists id e, In (id, e) (entries (st_db st)) /\ bytes_prefix path (m_path (e_meta e)) = true /\
                line = [205; id; kuksa_entry_type (m_etype (e_meta e)); kuksa_data_type (m_dtype (e_meta e))]
-                      ++ enc_opt_val (m_allowed (e_meta e)).
+                      ++ enc_opt_val (m_allowed (e_meta e)) ++ [1].
 Proof. exact viss_metadata_sound. Qed.
 Print Assumptions c20_metadata_sound.
 
 Theorem c20_metadata_complete : forall st path id e,
   In (id, e) (entries (st_db st)) -> bytes_prefix path (m_path (e_meta e)) = true ->
   In ([205; id; kuksa_entry_type (m_etype (e_meta e)); kuksa_data_type (m_dtype (e_meta e))]
-      ++ enc_opt_val (m_allowed (e_meta e))) (tl (viss_metadata st path)).
+      ++ enc_opt_val (m_allowed (e_meta e)) ++ [1]) (tl (viss_metadata st path)).
 Proof. exact viss_metadata_complete. Qed.
 Print Assumptions c20_metadata_complete.
 
